@@ -153,6 +153,13 @@ def parse_match(text):
             return atom.atom(orig_text)
         except errors.MalformedAtom as e:
             if "*" not in text:
+                if "*" in orig_text:
+                    # the glob sits in the slot / sub-slot, already turned
+                    # into restrictions above; the rest is a plain atom
+                    try:
+                        return packages.AndRestriction(*restrictions, atom.atom(text))
+                    except errors.MalformedAtom:
+                        pass
                 raise ParseError(str(e)) from e
             # support globbed targets with version restrictions
             return packages.AndRestriction(
